@@ -375,6 +375,37 @@ pub fn run_c08(ctx: &Ctx) -> ! {
                 }
             }
         }
+        // every pair of codes at every two adjacent positions (a slip at a 6-bit boundary), and
+        // every space / non-space pattern over the 8 positions with three kinds of filler
+        for carrier in 0..4 {
+            for pos in 0..7 {
+                for joint in 0..4096u32 {
+                    idx += 1;
+                    if idx % WORKERS != w {
+                        continue;
+                    }
+                    let mut c = [if joint & 1 == 0 { 32u8 } else { 1 + (joint % 26) as u8 }; 8];
+                    c[pos] = (joint >> 6) as u8;
+                    c[pos + 1] = (joint & 63) as u8;
+                    case(st, &mut rng, carrier, &c, "adjacent pair");
+                }
+            }
+            for mask in 0..256u32 {
+                for filler in [1u8, 48, 0] {
+                    idx += 1;
+                    if idx % WORKERS != w {
+                        continue;
+                    }
+                    let mut c = [32u8; 8];
+                    for (i, x) in c.iter_mut().enumerate() {
+                        if mask >> i & 1 == 1 {
+                            *x = if filler == 1 { 1 + ((i as u32 * 7 + mask) % 26) as u8 } else if filler == 48 { 48 + ((i as u32 + mask) % 10) as u8 } else { filler };
+                        }
+                    }
+                    case(st, &mut rng, carrier, &c, "space pattern");
+                }
+            }
+        }
         // random strings (uniform codes) and realistic strings with spaces
         for i in 0..nrand / WORKERS as u64 {
             let carrier = rng.below(4) as usize;
@@ -399,6 +430,8 @@ pub fn run_c08(ctx: &Ctx) -> ! {
     });
     st.exhaustive.push("every 6-bit code at every one of the 8 positions x 4 carriers".into());
     st.exhaustive.push("every ordered pair of positions x 16x16 representative codes x 4 carriers".into());
+    st.exhaustive.push("every pair of codes at every two adjacent positions x 4 carriers".into());
+    st.exhaustive.push("every space / non-space pattern over the 8 positions x {letters, digits, unassigned code 0} x 4 carriers".into());
     let mut vac = vec![];
     let total = st.evaluations.max(1);
     for c in ["char at position 7/8", "unassigned code", "digit"] {
@@ -761,6 +794,7 @@ pub fn run_c10(ctx: &Ctx) -> ! {
     let eval = eval_for("C10");
     let k = ctx.tier.pick(2usize, 24);
     let nrand = ctx.tier.pick(400_000u64, 60_000_000);
+    let thorough = ctx.tier == Tier::Thorough;
     let mut st = parallel(|w, st| {
         let mut rng = ctx.rng(10, w as u64);
         let mut idx = 0usize;
@@ -787,7 +821,10 @@ pub fn run_c10(ctx: &Ctx) -> ! {
                 if *fname == "st" || (*fname == "me.st" && *tc == 19) {
                     continue; // the subtype selects the layout; it is enumerated by `variants`
                 }
-                let values: Vec<u64> = if *len <= 12 {
+                // 13..17-bit fields (the CPR words): every value under one type code per layout in
+                // the quick tier, under every type code in the thorough tier
+                let full_wide = *len <= 17 && (thorough || matches!(*tc, 5 | 9 | 20));
+                let values: Vec<u64> = if *len <= 12 || full_wide {
                     (0..(1u64 << len)).collect()
                 } else {
                     let max = (1u64 << len) - 1;
@@ -798,7 +835,10 @@ pub fn run_c10(ctx: &Ctx) -> ! {
                     v
                 };
                 for val in values {
-                    for (df, cf) in &carriers {
+                    for (ci, (df, cf)) in carriers.iter().enumerate() {
+                        if *len > 12 && ci > 1 && val > 2 {
+                            continue; // wide sweeps: DF17 and DF18/CF0 only
+                        }
                         idx += 1;
                         if idx % WORKERS != w {
                             continue;
@@ -824,6 +864,38 @@ pub fn run_c10(ctx: &Ctx) -> ! {
                             }
                             run_case(st, "fields", &b, &eval);
                         }
+                    }
+                }
+            }
+            // pairs of fields: every joint value of every two fields of the layout whose combined
+            // width is at most 10 bits (14 in the thorough tier), all other bits random
+            let pair_bits = if thorough { 14 } else { 10 };
+            for (i1, (f1, s1, l1)) in layout.iter().enumerate() {
+                for (f2, s2, l2) in layout.iter().skip(i1 + 1) {
+                    if l1 + l2 > pair_bits || *f1 == "st" || *f2 == "st" || (*tc == 19 && (*f1 == "me.st" || *f2 == "me.st")) {
+                        continue;
+                    }
+                    for joint in 0..(1u64 << (l1 + l2)) {
+                        idx += 1;
+                        if idx % WORKERS != w {
+                            continue;
+                        }
+                        let (v1, v2) = (joint >> l2, joint & ((1u64 << l2) - 1));
+                        let df = if joint & 1 == 0 { 17 } else { 18 };
+                        let mut b = gen_frame_df(&mut rng, df);
+                        let mut me = gen_me(&mut rng, *tc);
+                        if *sub != 255 {
+                            set(&mut me, 6, 3, *sub as u64);
+                            if *tc == 31 && *sub <= 1 {
+                                make_ops_acceptable(&mut rng, &mut me);
+                            }
+                        }
+                        set(&mut me, *s1, *l1, v1);
+                        set(&mut me, *s2, *l2, v2);
+                        b[4..11].copy_from_slice(&me);
+                        st.nontrivial_enum += 1;
+                        st.class("field pairs");
+                        run_case(st, "fields", &b, &eval);
                     }
                 }
             }
@@ -911,12 +983,14 @@ pub fn run_c10(ctx: &Ctx) -> ! {
         }
     });
     st.exhaustive.push("every value of every field <= 12 bits of every ME layout x {DF17, DF18 x CF0..7}".into());
+    st.exhaustive.push(if thorough { "every value of the 17-bit CPR fields under every position type code x {DF17, DF18/CF0}" } else { "every value of the 17-bit CPR fields under type codes 5, 9, 20 x {DF17, DF18/CF0}" }.into());
+    st.exhaustive.push(format!("every joint value of every two fields of a layout with combined width <= {} bits", if thorough { 14 } else { 10 }));
     st.exhaustive.push("single-one payloads at every ME position x every type code/subtype x 9 carriers".into());
     st.exhaustive.push("every first MB byte (BDS dispatch) x {DF20, DF21}".into());
     finish(
         ctx,
         st,
-        "walking-field enumeration (each field of each ME/MB layout takes every value, or edge + 64 random values when wider than 12 bits, all other bits random), walking-one payloads, BDS dispatch sweep, and structured random frames; non-trivial = enumeration cell (distinct by construction) or random frame (distinct by hash)",
+        "walking-field enumeration (each field of each ME/MB layout takes every value, or edge + 64 random values when wider than 17 bits, all other bits random), field-pair enumeration, walking-one payloads, BDS dispatch sweep, and structured random frames; non-trivial = enumeration cell (distinct by construction) or random frame (distinct by hash)",
         &[
             "layouts from DO-260B 2.2.3.2 / ICAO 9871 table A-2-16, quoted as ME/MB bit ranges in refdec.rs",
             "type codes 1-4, 19 and 28 are owned by C08, C07 and C09: only variant dispatch is compared here; altitude codes are owned by C06",
